@@ -42,7 +42,7 @@ func init() {
 		},
 		Run: run,
 		Floors: func(t string) map[string]int64 {
-			return map[string]int64{"spelling.esri": 5000, "spelling.ogc": 1000, "spelling.projection_name_in_another_case": 300, "section_order.unit_before_parameters": 1000, "unit.foot": 1000, "unit.us_foot": 1000, "towgs84.3": 1000, "towgs84.7": 1000, "towgs84.none": 1000, "towgs84.none_from_wgs84": 300,
+			return map[string]int64{"spelling.esri": 5000, "conic.one_standard_parallel": 100, "spelling.ogc": 1000, "spelling.projection_name_in_another_case": 300, "section_order.unit_before_parameters": 1000, "unit.foot": 1000, "unit.us_foot": 1000, "towgs84.3": 1000, "towgs84.7": 1000, "towgs84.none": 1000, "towgs84.none_from_wgs84": 300,
 				"proj.merc": 300, "proj.lcc": 300, "proj.aea": 300, "proj.eqdc": 300, "proj.tmerc": 300, "proj.longlat": 300, "registry.names": 100, "registry.equal_pairs": 500, "registry.unequal_pairs": 300, "registry.prj_files": 50, "twin.negated": 2000, "names.short_empty_or_unusual": 1000, "wkt.authority_on_nested_objects": 1000, "unit.other_named_factor": 1000, "layout.blank_after_commas": 1000, "twin.nudged": 1000}
 		},
 	})
@@ -59,6 +59,7 @@ type sys struct {
 	latMin       float64
 	latMax       float64
 	ogc          bool
+	oneParallel  bool // lcc with lat_1 = lat_2 (the PROJ.4 text may leave +lat_2 out)
 	unitFirst    bool
 	pretty       bool
 	spaced          bool // a blank after every comma
@@ -212,7 +213,18 @@ func genSys(r *crsgen.R) *sys {
 		if math.Abs(l1-l2) < 0.5 {
 			l2 = l1 + sgn*2
 		}
-		s.proj4 = "+proj=" + form + " +lat_1=" + F(l1) + " +lat_2=" + F(l2) + " +lat_0=" + F(l0) + " +lon_0=" + F(lon0) + fo4 + ell4 + tw4 + unit4 + " +no_defs"
+		lat2 := " +lat_2=" + F(l2)
+		if form == "lcc" && r.Chance(0.2) {
+			// the tangent cone: one standard parallel. The WKT gives it twice, the PROJ.4 text may
+			// leave +lat_2 out (it defaults to lat_1), as every published one-parallel zone does
+			l2 = l1
+			lat2 = " +lat_2=" + F(l2)
+			if r.Chance(0.6) {
+				lat2 = ""
+			}
+			s.oneParallel = true
+		}
+		s.proj4 = "+proj=" + form + " +lat_1=" + F(l1) + lat2 + " +lat_0=" + F(l0) + " +lon_0=" + F(lon0) + fo4 + ell4 + tw4 + unit4 + " +no_defs"
 		pname := map[string]string{"lcc": "Lambert_Conformal_Conic_2SP", "aea": "Albers_Conic_Equal_Area", "eqdc": "Equidistant_Conic"}[form]
 		latName, lonName := "Latitude_Of_Origin", "Central_Meridian"
 		if form != "lcc" && r.Chance(0.35) {
@@ -336,6 +348,9 @@ func runSpelling(c *core.Ctx) {
 		c.Count("spelling.projection_name_in_another_case")
 	}
 	c.Count("proj." + s.name)
+	if s.oneParallel {
+		c.Count("conic.one_standard_parallel")
+	}
 	spelling := "esri"
 	if s.ogc {
 		spelling = "ogc"
